@@ -196,11 +196,19 @@ def build_call(L, tool, par, S, F, rec):
         def func(*a, **kw):  # the awaited keyword values arrive by name, in call order
             if list(kw) != list(kws):
                 raise AssertionError(f"keyword names {list(kw)}")
-            return g(*a, *kw.values())
+            res = g(*a, *kw.values())
+            if par.get("awres"):
+                return Aw(rec, res, Node("result-awaited"))   # the result is itself awaitable: to be handed back as it is
+            return res
 
         return lambda: L.apply(func, *pos, **kws)
     if tool == "sync":
-        return lambda: L.sync(F("func"))(Item(1, 1, 1))
+        f = L.sync(F("func"))
+
+        async def two_calls():
+            return (await f(Item(1, 1, 1)), await f(Item(1, 2, 1)))
+
+        return two_calls
     raise KeyError(tool)
 
 
@@ -236,8 +244,26 @@ class Obs:
                 "close_error": self.close_error}
 
 
+NONE_TOOLS = ("zip",)     # tools whose items with key 0 are the object None
+
+
+def noneify(log):
+    """Expected log with every key-0 item replaced by None (what the real source hands out)."""
+    def conv(v):
+        if isinstance(v, dict):
+            if set(v) == {"s", "p", "k"} and v["k"] == 0:
+                return None
+            return {a: conv(b) for a, b in v.items()}
+        if isinstance(v, list):
+            return [conv(x) for x in v]
+        return v
+    return [conv(e) for e in log]
+
+
 def _items_for(tool, i, keys):
     items = [Item(i, p + 1, k) for p, k in enumerate(keys)]
+    if tool in NONE_TOOLS:
+        return [None if x.k == 0 else x for x in items]
     if tool == "starmap":
         return [(x, x) for x in items]
     if tool == "dict":
